@@ -28,7 +28,7 @@ CLAIMED = {
         design="§9 C17", note=NOTE + "header difference classification across commits is modelled and tied by correspondence (its theorems are partial).", technique=T),
     "C02": dict(
         text="Theorems on the WAL model: grouping of valid frames into commit records (nothing lost, each record ends in its only commit frame), version count = commit frames, page->frame and page->version indices answer every lookup with the latest frame / record (also with duplicate pages in one transaction), frame image offset = file-format offset, where each version reads each page from (wal_page_source, history_indices), stale-salt frames never served, accepted logs end in a commit frame. Row-level claims by vh.dump correspondence + per-commit SQLite snapshots, an independent checksum-verifying WAL reader for page images, and SQLite's own view of the pair for the newest version.",
-        design="§9 C02", note=NOTE + "content level proved (Properties/C02Content: version k serves, for every page it covers, exactly SQLite's snapshot page after the k-th transaction - latest frame at or before the commit else the database file's page; a page written twice shows its last image; every byte taken from the log lies inside the valid run); the step from page bytes to rows is C01's tree theorem, composed by the correspondence; WAL checksums are not read by the tool.", technique=T),
+        design="§9 C02", note=NOTE + "content level proved (Properties/C02Content: version k serves, for every page it covers, exactly SQLite's snapshot page after the k-th transaction - latest frame at or before the commit else the database file's page; a page written twice shows its last image; every byte taken from the log lies inside the valid run); joined with the tree theorem of C01 in Properties/C02Rows.version_rows: a table b-tree laid out in SQLite's snapshot after the k-th commit (Spec.snapshotIf) is reported by version k with exactly its rows (likewise index entries), and version k parses any root to the same tree as the snapshot; WAL checksums are not read by the tool.", technique=T),
     "C05": dict(
         text="Theorems (Properties/C05): for EVERY cut offset n of the WAL file, the version history of the cut-off log (when accepted) is an initial segment, in commit order, of the history of the whole log, with equal Version records and equal version interfaces as functions (truncated_history_prefix / _pointwise / _take / _eq_restricted); a cut inside the 32-byte header is refused; every version k>=1 of an accepted cut-off history is the commit record of the k-th transaction of the whole log, closed by its commit frame, all of whose frames lie wholly below the cut (versions_committed); cuts right after a commit frame are accepted (non-vacuity). Frame-level half in Properties/C02. Tied by vh.dump correspondence over truncation offsets, per-commit snapshots and SQLite's recovery of the same pair.",
         design="§9 C02/C05", note=NOTE + "truncation only (torn writes inside a frame are outside the quantifier); frame checksums are not verified by the tool nor the model: 'equals what SQLite recovers' is decided by the recovery oracle in the correspondence stage, not by a theorem.", technique=T),
